@@ -74,7 +74,7 @@ JudgeTopo(e) ==
   IN IF Crashed(e) THEN V("crash", subj, "C20", e.post.msg)
   ELSE CASE e.act.m = "find_neighbors" ->
          LET r == a[4] IN
-         IF FLt(r, FPosZero) \/ a[2] < 1 \/ a[1] < 1 \/ a[3] > a[1]
+         IF FLt(r, FPosZero) \/ a[2] < 1 \/ a[1] < 1 \/ a[3] > a[1] \/ (a[2] >= 65 /\ a[1] >= 2)
          THEN Expect(e.ret = RNone, subj, "C20", "invalid arguments must yield no neighbourhood")
          ELSE LET nb == Neighbors(a[1], a[2], a[3], r) IN
               Expect(e.ret.t = "some" /\ ClassOK([c |-> "between", a |-> nb.lo, b |-> nb.hi], e.ret.v, <<>>),
